@@ -50,6 +50,13 @@ class NeedSplit(Exception):
         self.cond = cond
 
 
+class Raised(Exception):
+    """a contracted callee raises on this path (caller contract lists it under `propagates`): the statement ends with that exception"""
+
+    def __init__(self, exc):
+        self.exc = exc
+
+
 _fresh = itertools.count()
 
 
@@ -166,6 +173,7 @@ class Coll(V):
         self.len_z = None  # symbolic length when known although the order/multiplicity is abstracted
         self.ord = None  # order token (z3 term): the unknown iteration order this collection would be listed in
         self.nodup_z = None  # z3 Bool "holds no duplicates" for lists whose python-level flag was lost (loops)
+        self.seq = None  # (at, idx): sequence view of an abstract list/tuple - at: Int -> elem, idx: elem -> Int (see Executor.seq_of)
 
     def __repr__(self):
         return f"Coll({self.kind},{self.esort})"
@@ -804,6 +812,8 @@ class Executor:
             if self.dry:
                 return [(st, NORMAL)]
             raise
+        except Raised as r:
+            return [(st, Outcome("raise", exc=r.exc))]
         except NeedSplit as ns:
             out = []
             for cond, tag in ((ns.cond, "T"), (z3.Not(ns.cond), "F")):
@@ -1047,6 +1057,7 @@ class Executor:
             v.mem = fresh(tag, set_sort(v.esort))
             v.items = None
             v.len_z = None
+            v.seq = None
             if v.kind in ("list",):
                 v.nodup = False
                 v.nodup_z = fresh(tag + "_nodup", B)
@@ -1335,6 +1346,7 @@ class Executor:
             if T.kind == "list":
                 T.nodup = False
                 T.len_z = None
+                T.seq = None
         for a in assigned:
             st.env.pop(a, None) if a not in st.env else None
         self.assumed.add("parallel-loop rule (DESIGN §1): a for-loop whose body only emits values (add/append/update/extend/yield) and "
@@ -1790,6 +1802,30 @@ class Executor:
             return r
         raise Unsupported(f"binary op {type(op).__name__} on {a!r},{b!r}")
 
+    def seq_of(self, c, st, create=True):
+        r"""sequence view of an abstract list / tuple: at(i) is its i-th element, idx(x) the first position of x.
+        Axioms (true of every python sequence of length n with membership mem):
+            n >= 0;   0 <= i < n  =>  mem[at(i)];   mem[x]  =>  0 <= idx(x) < n  /\  at(idx(x)) = x."""
+        if c.seq is not None or not create:
+            return c.seq
+        if c.kind not in ("list", "tuple") or c.mem is None:
+            raise Unsupported("indexing an unordered or empty collection")
+        n = self.length_of(c, st)
+        if n is None:
+            n = fresh("len", I)
+            c.len_z = n
+        k = next(_fresh)
+        at = z3.Function(f"at!{k}", I, c.esort)
+        idx = z3.Function(f"idx!{k}", c.esort, I)
+        i_, x_ = fresh("i", I), fresh("x", c.esort)
+        st.assume(n >= 0)
+        st.assume(z3.ForAll([i_], z3.Implies(z3.And(0 <= i_, i_ < n), c.mem[at(i_)])))
+        st.assume(z3.ForAll([x_], z3.Implies(c.mem[x_], z3.And(0 <= idx(x_), idx(x_) < n, at(idx(x_)) == x_))))
+        c.seq = (at, idx)
+        self.assumed.add("sequence view of list/tuple parameters: at/idx functions with the three list axioms (n >= 0, at(i) is a member, "
+                         "every member sits at some index)")
+        return c.seq
+
     def length_of(self, c, st):
         """symbolic len() of a collection, or None when the abstraction cannot know it."""
         if c.len_z is not None:
@@ -1879,6 +1915,11 @@ class Executor:
         r = self.lib.subscript(self, o, k, st)
         if r is not None:
             return r
+        if isinstance(o, Coll) and o.kind in ("list", "tuple") and o.items is None and isinstance(k, Scalar) and k.z.sort() == I:
+            at, _ = self.seq_of(o, st)
+            # IndexError-free (negative indices are not modelled: the obligation demands 0 <= k < len)
+            self.oblige(st, z3.And(0 <= k.z, k.z < o.len_z if o.len_z is not None else self.length_of(o, st)), "indexerror-free")
+            return val_of(at(k.z))
         raise Unsupported(f"subscript on {o!r}")
 
     def ex_Slice(self, node, st):
@@ -2145,7 +2186,20 @@ class Executor:
         self.oblige(st, c.pre(self, st, cargs), f"call.{c.qual}.pre")
         exc = c.raises(self, st, cargs)
         for cls, cond in exc.items():
-            # callee would raise: the caller must exclude it (we do not model propagation here)
+            if self.contract is not None and c.qual in getattr(self.contract, "propagates", ()) and self.inline_depth == 0:
+                # exception propagation (opt-in per caller contract): decide the callee's raise condition on this path, splitting the
+                # path when it is open; on the raising side the callee's on_raise state holds and the statement ends with the exception
+                if self.dry:
+                    continue
+                if self.entails(st, z3.Not(cond), 2000):
+                    continue
+                if not self.entails(st, cond, 2000):
+                    raise NeedSplit(cond)
+                old = c.snapshot(self, st, cargs)
+                c.havoc(self, st, cargs)
+                st.assume(c.on_raise(self, st, cargs, old, cls), f"contract:{c.qual} raises {cls}")
+                raise Raised(cls)
+            # callee would raise: the caller must exclude it
             self.oblige(st, z3.Not(cond), f"call.{c.qual}.no-{cls}")
         old = c.snapshot(self, st, cargs)
         c.havoc(self, st, cargs)
@@ -2240,6 +2294,23 @@ class Executor:
             r = Coll(kind, c.esort, c.mem, items=items, nodup=nodup)
             if name in ("list", "tuple", "iter"):
                 r.ord, r.len_z = c.ord, c.len_z
+                if name in ("list", "tuple") and c.kind in ("list", "tuple"):
+                    r.seq = c.seq = self.seq_of(c, st, create=False) or c.seq
+                    r.len_z = c.len_z
+            return r
+        if name == "range":
+            if len(args) != 1 or kwargs:
+                raise Unsupported("range() with start/step")
+            n = z3_of(args[0])
+            if n.sort() != I:
+                raise Unsupported("range() of a non-integer")
+            if z3.is_int_value(z3.simplify(n)) and z3.simplify(n).as_long() <= 4:
+                return self.coll_from_items("list", [Scalar(z3.IntVal(i)) for i in range(max(0, z3.simplify(n).as_long()))])
+            i_ = fresh("i", I)
+            mem = fresh("range", set_sort(I))
+            st.assume(z3.ForAll([i_], mem[i_] == z3.And(0 <= i_, i_ < n)))
+            r = Coll("list", I, mem, nodup=True)
+            r.len_z = z3.If(n >= 0, n, z3.IntVal(0))
             return r
         if name == "isinstance":
             return Scalar(z3.BoolVal(self.isinstance_(args[0], node.args[1], st)))
@@ -2380,6 +2451,7 @@ class Executor:
                 c.nodup_z = z3.And(prev, z3.Not(c.mem[z]))
                 c.nodup = False
                 c.len_z = None
+            c.seq = None
             if not deq(z, z).eq(z == z):
                 y = fresh("y", z.sort())
                 old_mem = c.mem
